@@ -477,6 +477,9 @@ def c17():
     obs += page_obs("C17", [E_MALLOC], sizes=((32, 3),), flavours=("secure",))
     obs += page_obs("C17", [E_DF], sizes=((32, 2),), flavours=("secure",), timeout=900, **HARD)
     obs += page_obs("C17", [E_OV], sizes=((32, 2),), flavours=("debug",), timeout=900, **HARD)
+    MT_REPL = {"_mi_ptr_segment": "stub_ptr_segment", "_mi_segment_page_of": "stub_segment_page_of", "_mi_segment_page_start": "stub_segment_page_start",
+               "mi_free_block_delayed_mt": "stub_free_block_delayed_mt"}
+    obs += page_obs("C17", [("h_overflow_detect_mt", ["mi_free", "mi_free_generic_mt", "mi_free_block_mt", "mi_check_padding", "_mi_padding_shrink"])], sizes=((32, 2),), flavours=("debug",), timeout=900, replace=MT_REPL, **HARD)
     obs += page_obs("C17", [E_DF], sizes=((32, 3),), flavours=("secure", "debug"), tier="thorough", timeout=3000, **HARD)
     obs += page_obs("C17", [E_OV], sizes=((32, 3),), flavours=("debug",), tier="thorough", timeout=3000, **HARD)
     obs += page_obs("C17", [E_FREE], sizes=((32, 3),), flavours=("secure",), tier="thorough", timeout=3600, **HARD)
